@@ -57,7 +57,7 @@ def verdict_expr(c, r, ir, real):
     return ('[wf %s && wf_io_structs %s; agree_res agree_C06 (gen %s ""%%string None %s) %s; '
             'match %s with Ok o => C06_ok %s %s o && truth_shapes_ok o %s | Panic _ => %s | _ => false end; '
             'match %s with Ok o => C06_ok_kf %s %s o && kf_nonsquare %s %s | _ => false end]'
-            % (ir, ir, ir, o, real, real, ir, o, t, "true" if c["needs_encase"] else "false", real, ir, o, ir, o))
+            % (ir, ir, ir, o, real, real, ir, o, t, "true" if structcases.panic_expected(c) else "false", real, ir, o, ir, o))
 
 
 def nontrivial(c, r):
